@@ -104,7 +104,9 @@ fn build_root(v: WmoVersion, seed: u64, a: &RootArgs) -> (WmoRoot, Vec<String>) 
             texture2: t2, diffuse_color: r.color(), ground_type: r.below(12) as u32,
         }
     }).collect();
-    let gnames = family("grp", a.ngroups);
+    let mut gnames = family("grp", a.ngroups);
+    // seed bit 5: group names with multi-byte characters (byte length and character count differ)
+    if seed & 32 == 32 { for (i, n) in gnames.iter_mut().enumerate() { if i % 2 == 0 { n.push('\u{e9}') } else if i % 3 == 0 { n.insert(0, '\u{dc}') } } }
     let groups: Vec<WmoGroupInfo> = gnames.iter().map(|n| WmoGroupInfo {
         flags: WmoGroupFlags::from_bits_truncate((r.next() as u32) & SAFE_GROUP_FLAGS), bounding_box: r.bbox(), name: n.clone(),
     }).collect();
@@ -141,7 +143,9 @@ fn build_root(v: WmoVersion, seed: u64, a: &RootArgs) -> (WmoRoot, Vec<String>) 
         name_offset: doffs[r.below(a.ndefs as u64) as usize], position: r.vec(), orientation: [r.unit(), r.unit(), r.unit(), r.unit()],
         scale: r.pos(), color: r.color(), set_index: if extras { r.below(a.nsets.max(1) as u64) as u16 } else { 0 },
     }).collect();
-    let snames = family("set", a.nsets);
+    let mut snames = family("set", a.nsets);
+    // seed bit 4: set names that fill the fixed 20-byte field up to its last usable bytes (19 = longest with a terminator)
+    if seed & 16 == 16 { for (i, n) in snames.iter_mut().enumerate() { let target = [19usize, 18, 17, 19][i % 4]; while n.len() < target { n.push('x') } } }
     let mut start = 0u32;
     let doodad_sets: Vec<WmoDoodadSet> = snames.iter().enumerate().map(|(i, n)| {
         let cnt = if i + 1 == a.nsets { a.ndefs as u32 - start } else { (a.ndefs / a.nsets) as u32 };
